@@ -8,6 +8,7 @@ import (
 	"math"
 	"reflect"
 	"sort"
+	"strconv"
 	"strings"
 
 	"github.com/go-openapi/spec"
@@ -23,7 +24,7 @@ type c06 struct{}
 
 func init() {
 	register(c06{})
-	expectedProbes["C06"] = []string{"x-order-tie", "x-order-string", "x-order-non-integer", "name-needs-escaping", "builder-value", "order-checked", "kind:swagger", "kind:schema", "map-order-mattered-nowhere", "more-than-12-ordered-properties", "$schema-keyword", "x-order-case-twin"}
+	expectedProbes["C06"] = []string{"x-order-tie", "x-order-string", "x-order-non-integer", "name-needs-escaping", "builder-value", "order-checked", "kind:swagger", "kind:schema", "map-order-mattered-nowhere", "more-than-12-ordered-properties", "$schema-keyword", "x-order-case-twin", "x-order-unusable"}
 }
 
 func (c06) ID() string { return "C06" }
@@ -32,12 +33,25 @@ func (c06) Rule() string {
 	return "model values: decoded schemas whose properties/patternProperties carry x-order values with ties, strings, non-integers and absent values and adversarial member names " +
 		"(quotes, backslashes, control and non-ASCII characters, regex syntax), decoded generated Swagger documents / parameters / responses / operations with odd names, and values assembled " +
 		"through the builder API (SetProperty, AddExtension, With…); each value is encoded under several seeded map iteration orders. Oracle: (a) all encodings byte-identical, properties ordered by " +
-		"integral x-order then name; (b) every successful encoding is valid JSON, has no duplicate member name in any object (token-level scan) and decodes to the JSON value the model holds. " +
+		"integral x-order then name, a member whose x-order is no number and no numeral (boolean, null, container, other string) counting as unordered; (b) every successful encoding is valid JSON, has no duplicate member name in any object (token-level scan) and decodes to the JSON value the model holds. " +
 		"Only clause (a) depends on a schedule (the map-order seam); clause (b) is seeded input generation carried along. Non-trivial: the value has ≥2 properties in some ordered map or a name that needs escaping; " +
 		"distinct by (kind, x-order value classes, tie?, escaping classes of names, builder?)."
 }
 
 var advNames = []string{"plain", "a\"b", "a\\b", "a\\nb", "line\nbreak", "tab\there", "\u0001ctl", "é", "日本", "</script>", "a&b", "", "x-order", "$ref", "^a\\d+$", "^[a-z]{2,}$", "sp ace", "a/b", "~0", "\\", "\\\\", "\"", "a\\u0041", "ünï", "emoji😀", "k:v", "{}", "[0]"}
+
+// noOrder reports x-order values that cannot order anything: booleans, null, containers and
+// strings that are not numerals.
+func noOrder(v interface{}) bool {
+	switch t := v.(type) {
+	case float64:
+		return false
+	case string:
+		_, err := strconv.ParseFloat(strings.TrimSpace(t), 64)
+		return err != nil
+	}
+	return true
+}
 
 func xorder(r *sim.RNG, ties bool) (interface{}, bool) {
 	switch r.Intn(10) {
@@ -48,7 +62,8 @@ func xorder(r *sim.RNG, ties bool) (interface{}, bool) {
 	case 3:
 		return float64(r.Intn(3)) + 0.5, true
 	case 4:
-		return "abc", true
+		// present but no order at all
+		return []interface{}{"abc", true, false, nil, "", "1x", map[string]interface{}{"a": 1.0}, []interface{}{1.0}}[r.Intn(8)], true
 	case 5:
 		return float64(-1 - r.Intn(3)), true
 	default:
@@ -541,7 +556,12 @@ func (c06) Run(sc *Scenario) *Verdict {
 				if err == nil {
 					for _, members := range oms {
 						checkable := true
-						for _, m := range members {
+						for i, m := range members {
+							if m.Has && noOrder(m.Order) {
+								// a value that is no number and no numeral orders nothing: the member counts as unordered
+								members[i].Has, m.Has = false, false
+								v.probe("x-order-unusable")
+							}
 							if m.Has {
 								f, ok := m.Order.(float64)
 								if !ok || f != math.Trunc(f) {
